@@ -101,6 +101,20 @@ func rawInputCases(name string, raw []byte, reg world.Regions, pairs bool) []raw
 			}
 		}
 	}
+	// every byte of every size/type field at every value (a field read with the wrong width, or compared
+	// modulo something, is exposed by a change confined to one of its bytes)
+	for _, f := range fs {
+		for k := 0; k < f.width; k++ {
+			for v := 0; v < 256; v++ {
+				if byte(v) == raw[f.off+k] {
+					continue
+				}
+				m := append([]byte(nil), raw...)
+				m[f.off+k] = byte(v)
+				out = append(out, rawCase{fmt.Sprintf("sizebyte/%s/%s[%d]=%#x", name, f.name, k, v), m})
+			}
+		}
+	}
 	for _, t := range []int{1, 2, 16, 4096} {
 		m := append(append([]byte(nil), raw...), world.Fill("trail", t)...)
 		out = append(out, rawCase{fmt.Sprintf("trail/%s/+%d", name, t), m})
